@@ -135,6 +135,9 @@ func (o *oracle) stepNested(op Op) string {
 	if op.Op == "upd" || op.Op == "add" {
 		return o.stepNestedColl(op, rop)
 	}
+	if op.Op == "del" {
+		return o.stepNestedDel(op, rop)
+	}
 	if op.Op != "vset" {
 		return "!bad-op"
 	}
@@ -276,6 +279,36 @@ func (o *oracle) stepNestedColl(op, rop Op) string {
 	return ans(nm.String(), "-", evs, ids, created, ins)
 }
 
+// stepNestedDel: Collection.Delete whose expected check makes nested calls (Delete has no other callback:
+// at another site, without a check, or when there is no item to show to the check, nothing is called). The
+// check and the expected value are judged on the item Delete READ; the nested calls are ordinary calls; if
+// the item passes, what Delete does next is the Delete of an ordinary sequence "nested calls, then the
+// Delete": it removes and returns what is stored THEN (never the stale item it showed to the check), answers
+// NotFound / nothing when a nested call removed the item, and judges an item written meanwhile anew (by
+// its check, which makes no further calls).
+func (o *oracle) stepNestedDel(op, rop Op) string {
+	plain := Op{Op: "del", ID: op.ID, Opts: op.Opts}
+	id := o.icpt(op.ID)
+	seen, exists := o.items[id]
+	chk, has := rop.opt("chk")
+	if op.Site != "chk" || !has || !exists {
+		return strings.Replace(o.step(plain), " | ", " in=[] | ", 1)
+	}
+	ins, evs := o.nestedCalls(op)
+	fail := func(e string) string {
+		return fmt.Sprintf("%s in=%s | %s", cout(seen.m.String(), e, evs, nil, 0), showList(ins), o.dump())
+	}
+	if _, e := o.write(Op{Msg: "0//-", Opts: []string{"chk=" + chk}}, &seen.m); e != "" {
+		return fail(e)
+	}
+	if ev, ok := rop.opt("ev"); ok && !seen.m.equal(rparse(ev)) {
+		return fail("FailedPrecondition")
+	}
+	a := o.step(plain)
+	evs = append(evs, listItems(part(a, "ev"))...)
+	return fmt.Sprintf("%s in=%s | %s", cout(part(a, "val"), part(a, "err"), evs, nil, 0), showList(ins), afterBar(a))
+}
+
 // monitorNested: the property's clauses for a write with nested calls, on the code's own observations:
 // a failing write leaves what its nested calls left and emits nothing of its own (compared with the
 // reference, which runs the nested calls as ordinary calls); a write that succeeds has not overwritten
@@ -299,7 +332,12 @@ func monitorNested(m *lib.Monitor, s Script, i int, want, got, pre string) {
 		// (an absent item is read as an empty message by a write that may create it)
 		ic := newOracle(s.Cfg).icpt
 		id := ic(op.ID)
-		if id == "" {
+		// a write that generates its id (no id given, or one the interceptor maps to the empty key) does not
+		// write to the id it names
+		generates := func(o Op) bool {
+			return (o.Op == "upd" || o.Op == "add") && (o.ID == "" || ic(o.ID) == "") && resolve(o).has("gid")
+		}
+		if generates(op) {
 			return // a generated id: no nested call can name it
 		}
 		before := "absent"
@@ -310,12 +348,25 @@ func monitorNested(m *lib.Monitor, s Script, i int, want, got, pre string) {
 		}
 		stored := before
 		for k, r := range listItems(part(got, "in")) {
-			if k >= len(op.In) || !op.In[k].isWrite() || ic(op.In[k].ID) != id || !strings.HasSuffix(r, ",-") {
+			if k >= len(op.In) || !op.In[k].isWrite() || ic(op.In[k].ID) != id || !strings.HasSuffix(r, ",-") || generates(op.In[k]) {
 				continue
 			}
 			if stored = strings.TrimSuffix(r, ",-"); op.In[k].Op == "del" {
 				stored = "absent"
 			}
+		}
+		if op.Op == "del" {
+			// Delete returns (and removes) the item as stored when it deletes, not the item it showed to its
+			// check before the calls the check made
+			m.Count("nested:delete-succeeded-after-nested-calls")
+			if want := strings.Replace(stored, "absent", "nil", 1); part(got, "val") != want {
+				m.Violate("C01/Collection.Delete/stale-item-returned", "Delete succeeded and returned something else than the item stored under the id when it deleted (a write made from its own check had changed or removed the item it read)",
+					in, "val="+want, "val="+part(got, "val"))
+			}
+			if strings.Contains(stOf(afterBar(got)), "["+id+"~") || strings.Contains(stOf(afterBar(got)), ";"+id+"~") {
+				m.Violate("C01/Collection.Delete/item-still-stored", "Delete succeeded and the id is still a key", in, "no item "+id, stOf(afterBar(got)))
+			}
+			return
 		}
 		norm := func(x string) string {
 			if x == "absent" {
@@ -396,6 +447,9 @@ func genNestedOpsColl(r *rand.Rand, id string, cur *rmsg) []Op {
 // has none of the kind)
 func withNested(r *rand.Rand, op Op, cur *rmsg) Op {
 	site := pick(r, []string{"bf", "af", "chk"})
+	if op.Op == "del" && r.Intn(8) != 0 {
+		site = "chk" // Delete's only callback (one in eight names a site Delete never calls)
+	}
 	if genPos && site != "chk" {
 		site = "chk" // the named interceptors are written for the first message type
 	}
@@ -509,6 +563,15 @@ func (h *harness) nestedScopeColl() {
 		{Kind: "coll", Tick: 1, Init: []string{"a~1/x/-"}},
 		{Kind: "coll", Tick: 1, Init: []string{"a~0//-"}},
 	}
+	// Delete with an expected check that makes the calls (passing / failing on the stored item / on the item a
+	// nested call leaves; with an expected value; tolerating a missing item; a site Delete never calls)
+	outers = append(outers,
+		Op{Op: "del", ID: "a", Opts: []string{"chk=aEq:1"}, Site: "chk"},
+		Op{Op: "del", ID: "a", Opts: []string{"chk=sEmpty", "am"}, Site: "chk"},
+		Op{Op: "del", ID: "a", Opts: []string{"chk=nonNil", "ev=1/x/-"}, Site: "chk"},
+		Op{Op: "del", ID: "a", Opts: []string{"chk=fail:Aborted"}, Site: "chk"},
+		Op{Op: "del", ID: "a", Opts: []string{"chk=nonNil", "bf=bumpA"}, Site: "bf"},
+	)
 	n := 0
 	for _, cfg := range cfgs {
 		for _, o := range outers {
